@@ -545,8 +545,12 @@ func (s *Sim) judgeUpdate(o *kit.Outcome, m *opMeta, cur *Parsed, now time.Time)
 	if wellFormed(h) {
 		class = classify(prev, h)
 	}
-	why := mustRejectHeader(prev, now, h, func(n string) { s.inc("C24", n) })
+	belowHighLevel := false
+	why := mustRejectHeader(prev, now, h, func(n string) { s.inc("C24", n); belowHighLevel = true })
 	ok := o.OK()
+	if ok && belowHighLevel && len(why) == 0 {
+		s.inc("C24", "note_adjacent_header_accepted_below_trust_level_above_two_thirds")
+	}
 	s.inc("", "client_messages")
 	s.inc("", "update_"+class+"_"+outcome(o))
 	if len(why) > 0 {
@@ -713,8 +717,8 @@ func ids(us []*Subject) string {
 }
 
 func short(s string) string {
-	if len(s) > 140 {
-		return s[:140] + "…"
+	if len(s) > 330 {
+		return s[:330] + "…"
 	}
 	return s
 }
